@@ -8,6 +8,21 @@ CHECKS = {
    note="Trusted: Coq kernel + vm_compute + primitive floats; hand-written models Model/Control.v, Model/Dyn.v, Model/PT.v; Python harness; injected propagators via System.get_propagators. Not modelled: PT-TEBD application of chain controls (C10).",
    technique="Coq proof over list/fold models + exact integer differential correspondence (Eval vm_compute)",
    design="3/C18"),
+ "C03": dict(
+   text="Theorems (Coq, any ring, any dimensions/steps/number of environments): compute_dynamics returns exactly the cap read-outs of the augmented state evolving by pre-control, read-out, post-control, half propagator, every MPO in list order, half propagator (joint_evolution); each MPO application is the joint map on (bond leg, system leg), rank-3 = delta, transforms = pre/post multiplication, caps trace the bonds out; list order is irrelevant for pairwise commuting environments, for every permutation (order_independent_partial) and refuted without that premise. Tied to /repo by exact integer correspondence of compute_dynamics on hand-built process tensors; searched against an independent dense NumPy joint evolution.",
+   note="Trusted: Coq kernel/vm_compute; models Model/Dyn.v, Model/PT.v; Python harness and its dense oracle; injected propagators. Known finding: order dependence for non-commuting environments. 'Sum of baths' is explored numerically only.",
+   technique="Coq proof (ring-generic tensor model, induction over steps / Permutation) + exact integer differential correspondence",
+   design="3/C03"),
+ "C16": dict(
+   text="Theorems (Coq): slot write/read-back incl. resize and non-interference (set_get); import_simple(export p) = p field by field for every process tensor without the NaN sentinel (roundtrip, by induction over the tensor lists); imported object has initial tensor None (imported_usable); sentinel loss exhibited (sentinel_refuted). Tied to /repo through the real h5py: every exported object is re-imported as 'file' and 'simple' and compared exactly with the model's output; compute_dynamics on original vs imported must be bit-equal; file-backed PT-TEMPO vs in-memory.",
+   note="Trusted: Coq kernel/vm_compute; Model/PTFile.v; Python harness. h5py/HDF5 are not modelled (exercised for real).",
+   technique="Coq proof over an abstract HDF5 container + exact differential correspondence through h5py",
+   design="3/C16"),
+ "C17": dict(
+   text="Theorems (Coq): for every writer operation sequence not containing close, the file state carries the writing flag, so whatever survives a kill (unreadable, or any earlier state) never opens cleanly (crash_detected, export_crash_detected for every strict prefix of export's operations); a closed file opens clean with complete content (clean_close); mode/existence and remove tables (no_clobber, remove_guard). Tied to /repo by exhaustive decision-table correspondence and by really killing export() and a file-backed PT-TEMPO writer after every _set_data_and_shape call (flushed and unflushed) and inside close().",
+   note="Trusted: Coq kernel/vm_compute; Model/PTFile.v; the crash semantics of HDF5 is observed on the real library, not modelled; os._exit stands for process death.",
+   technique="Coq invariant over writer operation sequences + crash-point enumeration on the real writer",
+   design="3/C17"),
 }
 
 NOT_YET = {}
